@@ -148,4 +148,49 @@ let check inp obs =
              (if String.length m > 300 then String.sub m 0 300 ^ "..." else m) })
   | _ -> fail "C31: bad input %s" inp
 
-let () = run_driver check
+(* ---- vm_compute cross-check (bin/check: vm_sample): coq/C31/VmCheck.v *)
+let cn = coq_n
+let clist f l = "[" ^ String.concat "; " (List.map f l) ^ "]"
+let err_code = function
+  | "invalid" -> 1 | "dir" -> 2 | "same" -> 3 | "toohigh" -> 4 | "nostart" -> 5 | "nodesc" -> 6
+  | "notchain" -> 7 | "range" -> 8 | "byNumber" -> 9 | _ -> 10
+
+let coq inp obs =
+  try
+    match split_ws inp with
+    | ["plan"; a; b] ->
+      (match parse_plan obs with
+       | Some p -> Some (Printf.sprintf "vm_plan %s %s %s" (cn (n_of_hex a)) (cn (n_of_hex b))
+                           (clist (fun (x, y) -> "(" ^ cn x ^ ", " ^ cn y ^ ")") p))
+       | None -> None)
+    | ["serve"; tree; dir; from; mx; fields; repeat] ->
+      let (blocks, _, _) = blocks_of tree in
+      if List.length blocks > 160 then None else
+      (match String.index_opt obs ' ' with
+       | None -> None
+       | Some i ->
+         let best = n_of_hex (String.sub obs 0 i) in
+         let answer = String.sub obs (i + 1) (String.length obs - i - 1) in
+         let fromv = (match from.[0] with
+           | 'n' -> "FromNum " ^ cn (n_of_hex (String.sub from 1 (String.length from - 1)))
+           | 'h' -> "FromHash " ^ cn (n_of_hex (String.sub from 1 (String.length from - 1)))
+           | _ -> "FromHash " ^ cn (n_of_hex "deadbeef00")) in
+         let seen = n_of_i (max 0 (int_of_n (n_of_hex repeat) - 1)) in
+         let observed =
+           if String.length answer >= 3 && String.sub answer 0 3 = "ok " then
+             (match parse_resp (String.sub answer 3 (String.length answer - 3)) with
+              | Some r -> "(Ok " ^ clist (fun d -> "(mkbd " ^ cn d.d_hash ^ " " ^ cn d.d_fields ^ ")") r ^ ")"
+              | None -> raise Exit)
+           else if String.length answer >= 4 && String.sub answer 0 4 = "err:" then
+             Printf.sprintf "(Err %d)" (err_code (String.sub answer 4 (String.length answer - 4)))
+           else raise Exit in
+         Some (Printf.sprintf "vm_serve %s %s (mkreq %s (%s) %s %s) %s %s"
+                 (clist (fun b -> Printf.sprintf "mkblk %s %s %s %s" (cn b.b_hash) (cn b.b_parent)
+                                    (cn b.b_number) (cn b.b_avail)) blocks)
+                 (cn best) (cn (n_of_hex fields)) fromv (cn (n_of_hex dir))
+                 (if mx = "-" then "None" else "(Some " ^ cn (n_of_hex mx) ^ ")")
+                 (cn seen) observed))
+    | _ -> None
+  with _ -> None
+
+let () = run_driver ~coq check
